@@ -447,3 +447,35 @@ func (r *Report) finish(evidencePath, knownPath string) int {
 	}
 	return 0
 }
+
+// isErrorType: the predeclared interface type error.
+func isErrorType(t types.Type) bool {
+	return types.Identical(t, types.Universe.Lookup("error").Type())
+}
+
+
+// withPkgHelpers: fn and the unexported, non-method functions of its own package statically reachable from it.
+func (w *World) withPkgHelpers(fn *ssa.Function) []*ssa.Function {
+	out := []*ssa.Function{fn}
+	seen := map[*ssa.Function]bool{fn: true}
+	for i := 0; i < len(out); i++ {
+		f := out[i]
+		for _, g := range append([]*ssa.Function{f}, allAnon(f)...) {
+			for _, b := range g.Blocks {
+				for _, in := range b.Instrs {
+					ci, ok := in.(ssa.CallInstruction)
+					if !ok {
+						continue
+					}
+					c := ci.Common().StaticCallee()
+					if c == nil || seen[c] || c.Pkg != fn.Pkg || c.Parent() != nil || len(c.Blocks) == 0 || c.Object() == nil || c.Object().Exported() {
+						continue
+					}
+					seen[c] = true
+					out = append(out, c)
+				}
+			}
+		}
+	}
+	return out
+}
